@@ -160,6 +160,10 @@ fn get_text_edit_range_in_string(
     }
 
     let new_text_range = TextRange::new(start_offset.into(), end_offset.into());
+    // the edit replaces the string content: the cursor has to be inside it (not behind the closing quote)
+    if !new_text_range.contains_inclusive(builder.position_offset) {
+        return None;
+    }
 
     builder
         .semantic_model
